@@ -29,7 +29,9 @@ MAX_HEAP = 12
 MAX_STORE = 20000
 MAX_DENSE = 200000      # full() is only called when the dense array is at most this large
 MAX_ORDER = 8
-STEP_TIMEOUT = 30       # seconds; a step that does not return is an outcome class, never a violation
+STEP_TIMEOUT = 120      # seconds (wall-clock backstop); a step that does not return is an outcome class, never a violation
+LINE_BUDGET = 300000   # deterministic budget (torchtt line events) for the steps that are known to be able to spin
+BUDGET_OPS = ('amen_solve', 'divide')
 
 
 class StepTimeout(Exception):
@@ -1051,9 +1053,14 @@ class AmenSolve:
             return None
         b = rng.choice(bs)
         g = _guess(rng, S, gen.ints(A.obj.N), dt_of(A.obj))
+        ls = rng.choice([1, 2])
+        if any(float(c.detach().abs().max()) == 0.0 for c in b.obj.cores if c.numel()):
+            # a right-hand side that is exactly zero makes BiCGSTAB_reset spin forever in its search for a shadow
+            # residual (while dot(r, r0p) == 0); that hang is outside C05/C06 and only burns the step alarm
+            ls = 1
         return [A.sid, b.sid] + ([g.sid] if g else []), {
             'guess': g is not None, 'nswp': rng.choice([1, 2, 3]), 'eps': rng.choice([1e-8, 1e-4]),
-            'prec': rng.choice([None, None, 'c', 'r']), 'max_full': rng.choice([0, 500]), 'ls': rng.choice([1, 2]),
+            'prec': rng.choice([None, None, 'c', 'r']), 'max_full': rng.choice([0, 500]), 'ls': ls,
             'kick2': rng.choice([0, 0, 1]), 'trunc': rng.choice(['res', 'res', 'fro']), 'single': rng.random() < 0.1}
 
     @staticmethod
@@ -1076,6 +1083,10 @@ class Divide:
         if y is None:
             return None
         mode = rng.choice(['ew', 'ew', 'ew_s', 'op', 'rdiv'])
+        if mode in ('op', 'rdiv') and (dense_numel(x.obj) > 64 or len(x.obj.N) > 4 or dt_of(x.obj) != torch.float64):
+            # the operators run 50 sweeps at eps=1e-12 with rank cap 500: on larger operands one call takes tens of
+            # seconds of LAPACK time, which no deterministic budget can bound; keep them to small operands
+            mode = 'ew'
         g = _guess(rng, S, gen.ints(x.obj.N), dt_of(x.obj)) if mode.startswith('ew') else None
         p = {'mode': mode, 'guess': g is not None, 'nswp': rng.choice([1, 2]), 'eps': rng.choice([1e-8, 1e-4]), 'prec': rng.choice([None, 'c'])}
         p.update(pick_scalar(rng, zero_ok=False))
@@ -1385,6 +1396,9 @@ class Machine:
         result = None
         exc = None
         obs = st.get('obs')
+        if obs is None and name in BUDGET_OPS:
+            obs = []        # run under the line observer anyway: it carries the deterministic budget
+        budget = LINE_BUDGET if name in BUDGET_OPS else None
         flt = st.get('svdfault')
         sf = None
         if flt is not None:
@@ -1395,21 +1409,35 @@ class Machine:
         try:
             with step_alarm():
                 if obs is not None:
-                    lo = seams.LineObserver(obs, lambda k: self._oracles_existing(name, targets, '@line'))
+                    lo = seams.LineObserver(obs, lambda k: self._oracles_existing(name, targets, '@line'), max_lines=budget,
+                                            on_budget=lambda: StepTimeout('step exceeded its budget of %d line events' % LINE_BUDGET))
                     try:
                         with lo:
                             result = opc.run(S, objs, st['p'])
-                    finally:
+                        # only a step that returned (or raised by itself) has a meaningful line count; the point at which
+                        # the alarm interrupts a step that never returns depends on the wall clock and must not leak
+                        # into the log or into the generation of later steps
                         self.linecount[name] = lo.count
+                        self.log.add('obs', lo.count, lo.fired)
+                    except StepTimeout:
+                        raise
+                    except Exception:
+                        self.linecount[name] = lo.count
+                        self.log.add('obs', lo.count, lo.fired)
+                        raise
+                    finally:
                         core.bump(self.res['stats'], 'fault.preempt_points_fired', lo.fired)
                         core.bump(self.res['stats'], 'observed_steps')
-                        self.log.add('obs', lo.count, lo.fired)
                 else:
                     result = opc.run(S, objs, st['p'])
         except Exception as e:
             exc = e
             if isinstance(e, StepTimeout):
                 core.bump(self.res['stats'], 'probe.step_timeout')
+                if 'budget' not in str(e):
+                    # the wall-clock backstop fired: this outcome depends on the machine load (it should never happen:
+                    # the slowest legitimate step measured takes ~10 s, the backstop is 120 s)
+                    core.bump(self.res['stats'], 'probe.step_wall_clock_timeout')
         finally:
             if sf is not None:
                 sf.__exit__(None, None, None)
@@ -1417,7 +1445,8 @@ class Machine:
                 core.bump(self.res['stats'], 'svd.fallback_completed', sf.fallback_ok)
                 if sf.fired_primary:
                     core.bump(self.res['stats'], 'steps_with_svd_fault')
-                self.log.add('svdfault', sf.n_primary, sf.fired_primary)
+                if not isinstance(exc, StepTimeout):
+                    self.log.add('svdfault', sf.n_primary, sf.fired_primary)
         oc = outcome_class(result, exc)
         core.bump(self.res['stats'], 'steps')
         core.bump(self.res['stats'], 'op.' + name)
